@@ -11,6 +11,7 @@ from ..core import AnalysisError, src
 COMP = "chameleon.compiler.Compiler."
 VE = "chameleon.zpt.program.MacroProgram.visit_element"
 TPL = "chameleon.zpt.template."
+PROG = "chameleon.zpt.program.MacroProgram."
 
 
 def run(repo, rep, tier):
@@ -580,6 +581,7 @@ def _calls(repo, rep):
     # template.macros once the template is compiled again: the entry points
     # of the previous version are retired (C16 owns the rule)
     from . import c16
+    element_details(repo, rep)
     L.borrow(repo, rep, "R09.3", "C16", c16._retire,
              ("retire-filter", "stale-entry-points"), minimum=2)
     # define-macro: stored, and rendered in place through an internal use
@@ -667,3 +669,105 @@ def _public(repo, rep):
                   "render functions are looked up or called",
                   construct="cook-check-first", where=L.where(f),
                   detail=first)
+
+
+def element_details(repo, rep, rule="R09.3"):
+    """Value-level facts of MacroProgram.visit_element that several
+    properties rest on:
+    * TAL and METAL statement values are entity-decoded where the element is
+      visited, except the multi-part TAL statements (split first);
+    * the element that uses a macro renders no tag of its own (omit);
+    * 'macroname' is what follows the last '/' of the use-macro expression;
+    * the 'attrs' alias is the FIRST definition of the element (tal:define
+      parts may read it);
+    * an unquoted attribute value gets quotes when a computed value goes
+      into it: tal:attributes expression, or '${' in the text."""
+    ve = repo.func(PROG + "visit_element")
+    wh = L.where(ve)
+    # decode loop
+    loops = [n for n in ast.walk(ve.node) if isinstance(n, ast.For)
+             and "ns.items()" in src(n.iter)]
+    cmps = [c for lp in loops for c in ast.walk(lp)
+            if isinstance(c, ast.Compare) and len(c.comparators) == 1
+            and "prefix" in (src(c.left), src(c.comparators[0]))]
+    skip = [c for lp in loops for c in ast.walk(lp)
+            if isinstance(c, ast.If) and any(
+                isinstance(x, ast.Continue) for x in c.body)]
+    ok = len(loops) == 1 and len(cmps) >= 3 and all(
+        len(c.ops) == 1 and isinstance(c.ops[0], ast.Eq) for c in cmps)
+    consts = sorted(src(c.comparators[0]) if src(c.left) == "prefix"
+                    else src(c.left) for c in cmps)
+    ok = ok and consts.count("TAL") >= 2 and "METAL" in consts
+    oks = len(skip) == 1 and "prefix == TAL" in src(skip[0].test).replace(
+        "TAL == prefix", "prefix == TAL") and "MULTIPART" in src(skip[0].test)
+    rep.check(ok and oks, rule, ve.qualname, "statement values of the TAL "
+              "and METAL namespaces are entity-decoded here, the multi-part "
+              "TAL statements excepted (split as written first)",
+              construct="decode-which", where=wh,
+              detail=str([src(c) for c in cmps]))
+    # use-macro: omit the element's own tag
+    branch = [n for n in ast.walk(ve.node) if isinstance(n, ast.If)
+              and src(n.test) in ("use_macro or extend_macro",
+                                  "extend_macro or use_macro")]
+    om = [a for b in branch[:1] for a in b.body if isinstance(a, ast.Assign)
+          and src(a.targets[0]) == "omit"]
+    rep.check(len(om) == 1 and isinstance(om[0].value, ast.Constant)
+              and om[0].value.value is True, rule, ve.qualname, "the element "
+              "that uses (or extends) a macro is replaced by the macro: its "
+              "own tag is omitted", construct="use-macro-omits-tag", where=wh)
+    # macroname
+    mn = [a for a in ast.walk(ve.node) if isinstance(a, ast.Assign)
+          and src(a.targets[0]) == "macro_name"
+          and "split" in src(a.value)]
+    okm = False
+    for a in mn:
+        v = a.value
+        if isinstance(v, ast.Subscript) and isinstance(v.value, ast.Call) \
+                and isinstance(v.value.func, ast.Attribute):
+            c = v.value
+            try:
+                idx = ast.literal_eval(v.slice)
+            except ValueError:
+                idx = None
+            sep_ok = c.args and isinstance(c.args[0], ast.Constant) and \
+                c.args[0].value == "/"
+            if c.func.attr == "rsplit":
+                mx = ast.literal_eval(c.args[1]) if len(c.args) > 1 else -1
+                okm = sep_ok and idx == -1 and (mx == -1 or mx >= 1)
+            elif c.func.attr == "split":
+                mx = ast.literal_eval(c.args[1]) if len(c.args) > 1 else -1
+                okm = sep_ok and idx == -1 and mx == -1
+            elif c.func.attr == "rpartition":
+                okm = sep_ok and idx in (2, -1)
+    rep.check(okm, rule, ve.qualname, "'macroname' is the part of the "
+              "expression behind its last '/'", construct="macroname-tail",
+              where=wh, detail=str([src(a.value) for a in mn]))
+    # attrs alias first
+    ins = [c for c in ast.walk(ve.node) if isinstance(c, ast.Call)
+           and src(c.func) == "assignments.insert" and len(c.args) == 2
+           and "'attrs'" in src(c.args[1])]
+    rep.check(len(ins) == 1 and isinstance(ins[0].args[0], ast.Constant)
+              and ins[0].args[0].value == 0, rule, ve.qualname, "the static "
+              "attribute dictionary 'attrs' is defined in front of the "
+              "element's tal:define parts", construct="attrs-alias-first",
+              where=wh, detail=str([src(c) for c in ins]))
+    ca = repo.func(PROG + "_create_attributes_nodes")
+    qs = [n for n in ast.walk(ca.node) if isinstance(n, ast.If)
+          and any(isinstance(a, ast.Assign) and src(a.targets[0]) == "quote"
+                  for a in n.body)]
+    okq = False
+    for n in qs:
+        t = n.test
+        conj = t.values if isinstance(t, ast.BoolOp) and isinstance(
+            t.op, ast.And) else [t]
+        dis = [c for c in conj if isinstance(c, ast.BoolOp)
+               and isinstance(c.op, ast.Or)]
+        if len(dis) == 1:
+            parts = sorted(src(v).replace(" ", "") for v in dis[0].values)
+            okq = parts == sorted(["exprisnotNone",
+                                   "textisnotNoneand'${'intext"])
+    rep.check(okq, rule, ca.qualname, "an unquoted attribute value is "
+              "quoted when a computed value goes into it: a tal:attributes "
+              "expression OR '${' in its (present) text",
+              construct="quote-when-computed", where=L.where(ca),
+              detail=str([src(n.test) for n in qs]))
